@@ -35,8 +35,7 @@ B = L.BRANCH
 
 def check_c12(lab, outcome, spec, with_bad, salt, backend, pick, limits, leaf_limits, mid_limits):
     want, errors = P.expected(spec, with_bad)
-    if outcome[0] == "error" and isinstance(outcome[1], TypeError) and "cannot pickle" in str(outcome[1]) and any(
-            fail and caught and mode == 4 for (x, fail, caught, mode) in spec):
+    if P.unpicklable_outcome(spec, outcome):
         # a CAUGHT failure whose exception object cannot be pickled: handing it to the recover task fails (arguments are hashed
         # by pickling), on the stock scheduler too.  C12 speaks about uncaught failures; nothing to check here.
         return None
@@ -83,8 +82,7 @@ def check_c12(lab, outcome, spec, with_bad, salt, backend, pick, limits, leaf_li
         resub = [sub for sub in lab2.submissions if sub[0].endswith(".leaf") and sub[2] == failing_args]
         if not resub:
             return "in a second execution the failed call leaf(...) was not handed to an executor again (outcome %r)" % (outcome2[0],)
-        pickle_limit = (outcome2[0] == "error" and isinstance(outcome2[1], TypeError) and "cannot pickle" in str(outcome2[1])
-                        and any(fail and caught and mode == 4 for (x, fail, caught, mode) in spec))
+        pickle_limit = P.unpicklable_outcome(spec, outcome2)
         if not pickle_limit and (outcome2[0] != "error" or str(outcome2[1]) != str(err)):
             return "second execution ended with %r instead of raising the same error" % (outcome2,)
     return None
